@@ -598,6 +598,7 @@ func (c *Ctx) execUnOp(s *State, x *ssa.UnOp) {
 			return
 		}
 		c.copyLockCheck(s, x, p)
+		c.structGuards(s, x, p.T, x.Type(), false)
 		c.setVal(s, x, c.loadPtr(s, x, p, x.Type()))
 	case token.NOT:
 		c.setVal(s, x, Sc{T: Not(c.val(s, x.X).(Sc).T)})
@@ -658,7 +659,22 @@ func (c *Ctx) execStore(s *State, x *ssa.Store) {
 		}
 	}
 	c.nilCheck(s, x, p.T, "store")
+	c.structGuards(s, x, p.T, x.Val.Type(), true)
 	c.storeAt(s, p.T, x.Val.Type(), v)
+}
+
+// structGuards: loading or storing a whole struct value reads / writes every field of it, the
+// guarded ones included.
+func (c *Ctx) structGuards(s *State, in ssa.Instruction, base Term, t types.Type, write bool) {
+	st, ok := isStructType(t)
+	if !ok || c.scout > 0 {
+		return
+	}
+	for i := 0; i < st.NumFields(); i++ {
+		if gf, ok := c.eng.guardOfField(t, i); ok {
+			c.checkGuardNamed(s, in, gf, base, write, !write, "whole-struct")
+		}
+	}
 }
 
 func (c *Ctx) loadGlobal(s *State, g *ssa.Global) Value {
